@@ -404,3 +404,30 @@ Print Assumptions decode_encode_log.
 Theorem decode_encode_entry : forall (e : ientry), ientry_wf e -> dec_entry (enc_entry e) = e.
 Proof. exact dec_entry_enc. Qed.
 Print Assumptions decode_encode_entry.
+
+(* ---- pathbadger's per-version sequence counter (uint16) ---- *)
+(* sequence numbers granted to the commits of one version are pairwise
+   distinct and never MaxUint16, for any history (commits, abandoned batches,
+   finalizations, queries) and any number of reservations *)
+Theorem pathbadger_seq_numbers_distinct : forall (db : pbdb) (t : list tcall) (v : N),
+  NoDup (commit_seqs db t v) /\ Forall (fun s => s <> SEQ_MAX) (commit_seqs db t v).
+Proof. exact commit_seqs_distinct_lem. Qed.
+Print Assumptions pathbadger_seq_numbers_distinct.
+
+(* at the bound the store refuses rather than reuses *)
+Theorem pathbadger_seq_refused_at_max : forall (db : pbdb) (v : N),
+  next_of db v = SEQ_MAX -> new_batch db v = None.
+Proof. exact seq_refused_at_max_lem. Qed.
+Print Assumptions pathbadger_seq_refused_at_max.
+
+(* refuted for a counter that wraps: after 65535 abandoned reservations a
+   competing root gets number 0 again, overwrites the first root's nodes, and
+   the log served for the first root carries the other root's values; the
+   ported counter refuses instead *)
+Theorem pathbadger_seq_wrap_refuted :
+  run_trace_with new_batch_wrapping empty_db wrap_trace =
+    [OSeq 0; OBurn 65535; OSeq 0; OGet (GServed [([97], Some [4]); ([98], Some [4])])] /\
+  run_trace_with new_batch empty_db wrap_trace =
+    [OSeq 0; OBurn 65534; ORefused; OGet (GServed [([97], Some [1]); ([98], Some [1])])].
+Proof. exact seq_wrap_refuted_lem. Qed.
+Print Assumptions pathbadger_seq_wrap_refuted.
